@@ -25,6 +25,7 @@ EXPLANATION = (
     "probabilities are a*p + b with p = e/sum(e) (same e), a + n*b = 1 and b = gamma as term identities, a >= 0 for the shipped gamma and "
     "portfolio size; the strategy is chosen by inverse CDF on cumsum(prob). R6 search-mesh slots are coherent with the search exponent where read (rules/meshflow.py). R7 every definition of the hedge reward that uses a GP-predicted quantity (def-use closure from .predict) sits under np.isfinite(q) or q == const; the zero-SD branch is tabled. The rank-selection mask combinatorics for all (mu, lambda) would need "
     "execution and are not decided."
+    " R8 = C01-R6 (helpers leave their array arguments untouched). R9 the ranked values carry the acquisition function's provenance through copies / reshapes / concatenations only. R10 no early exit from a generation before the survivor selection unless guarded to later generations."
 )
 
 
